@@ -146,7 +146,7 @@ type Result struct {
 	Outcomes     []Outcome // in arrival order per channel: successes first then errors (order across channels is not observable)
 	SyncReturns  []Outcome // Sync scenarios: what SendMessages reported per message
 	CloseOK      bool      // Close()/channel closure completed within the bound
-	InputBlocked bool      // a send on Input() did not complete within 3 s (the pipeline is stuck)
+	InputBlocked bool      // a send on Input() did not complete within 5 s (the pipeline is stuck)
 	ChansClosed  bool
 	Events       []Ev
 	IcCalls      []IcCall
@@ -226,6 +226,10 @@ func Run(sc *Scenario) *Result {
 		topics[t] = sc.Partitions
 	}
 	cl := New(sc.Brokers, topics, sc.Script)
+	if cl == nil {
+		res.SetupErr = "cluster: cannot open a listener"
+		return res
+	}
 	defer cl.Close()
 	cfg := sc.Config()
 	obs := NewObserver(sc.Jitter)
@@ -477,9 +481,9 @@ func ChaserAsMessage(evs []Ev) bool {
 
 // submit sends on Input() with a bound: a stuck pipeline must not hang the harness.
 func submit(p sarama.AsyncProducer, m *sarama.ProducerMessage) bool {
-	bound := 3 * time.Second
+	bound := 5 * time.Second
 	if hangsSeen >= 2 {
-		bound = 300 * time.Millisecond
+		bound = 1500 * time.Millisecond
 	}
 	select {
 	case p.Input() <- m:
